@@ -570,16 +570,25 @@ int main() {
 #else
 			rejected("load");
 #endif
-		} else if (name == "replayEnter") {
+		} else if (name == "replayEnter" || name == "replayEnterFrom") {
 #if CFG_HISTORY && CFG_MANUAL
 			unsigned d = w.size() > 3 ? num(w[3]) : 999;
+			if (name == "replayEnterFrom") {
+				if (d >= SLOTS || !g_m[d]) { rejected("replayEnter"); continue; }
+				const Transition& pt = g_m[d]->previousTransition();
+				d = pt ? static_cast<unsigned>(pt.destination) : 0u;
+			}
 			if (!active && idOk(d)) { m->replayEnter(static_cast<ffsm2::StateID>(d)); apiLine("replayEnter", m, -1, "~"); } else rejected("replayEnter");
 #else
 			rejected("replayEnter");
 #endif
-		} else if (name == "replayTransition") {
+		} else if (name == "replayTransition" || name == "replayFrom") {
 #if CFG_HISTORY
 			unsigned d = w.size() > 3 ? num(w[3]) : 999;
+			if (name == "replayFrom") {
+				if (d >= SLOTS || !g_m[d]) { rejected("replayTransition"); continue; }
+				d = static_cast<unsigned>(g_m[d]->previousTransition().destination);
+			}
 			if (active && (idOk(d) || d == 255)) { bool r = m->replayTransition(static_cast<ffsm2::StateID>(d)); apiLine("replayTransition", m, r ? 1 : 0, "~"); } else rejected("replayTransition");
 #else
 			rejected("replayTransition");
